@@ -537,6 +537,11 @@ theorem build_pass_adjusts_hotspot (w : World) (eid : Nat) (res : String) (batch
     · rename_i hpass; exact absurd hpass (by simpa using hb)
     · rename_i x hx; simp only [] at hp; rw [hp] at hx; exact absurd rfl (hx)
 
+/-- the hotspot slot's dispatch is `checkConc` for a concurrency rule -/
+theorem check_is_checkConc (c : HsCtrl) (now : Nat) (arg : String) (batch : Nat) (hm : c.rule.metric = .concurrency) :
+    c.check now arg batch = c.checkConc arg := by
+  unfold HsCtrl.check; rw [hm]
+
 /-- non-vacuity: a fresh concurrency controller (threshold 2, capacity 2) meets the premises for the values a, b -/
 example : ConcInv (HsCtrl.new { id := "h", metric := .concurrency, strategy := .reject, thr := 2, maxCap := 2 }) ["a", "b"] :=
   ⟨by decide, by decide, by simp [HsCtrl.new, Lru.keys], by simp [HsCtrl.new, Lru.keys]⟩
